@@ -227,7 +227,8 @@ pub fn ctx_reply(c: &sylvia::ctx::ReplyCtx) -> Value {
     let token = c.deps.storage.get(b"verif_token").map(|b| String::from_utf8_lossy(&b).to_string()).unwrap_or_default();
     let evs: Vec<Value> = c.events.iter().map(|e| json!(e.ty)).collect();
     json!({"height": c.env.block.height.to_string(), "contract": c.env.contract.address.to_string(), "token": token,
-           "gas_used": c.gas_used.to_string(), "events": evs, "msg_responses": c.msg_responses.len()})
+           "gas_used": c.gas_used.to_string(), "events": evs, "msg_responses": c.msg_responses.len(),
+           "callee_seen": crate::chain::peek_callee(c.deps.storage, &c.deps.querier)})
 }
 
 /// The context a legacy reply method gets (no `replies` feature: deps and env only).
